@@ -464,4 +464,26 @@ def Scene.flagParts (s : Scene) : List (GV × Nat) :=
     let fl := lineFlags YL_EDGE YL_CONN YH_EDGE YH_CONN (bps.map fun q => (q.k.isConn, !q.k.isConn && cs.contains q.t))
     List.zipWith (fun q f => ((⟨v.p, q.t, q.k⟩ : GV), f)) bps fl)
 
+/-! ### the scan line, event by event
+
+`generateStaticOrthogonalVisGraph` walks the sweep positions in increasing order (`qsort` with
+`compare_events`); at each position pass 1 inserts the rectangles that open there, pass 2 computes segments
+from the scan line, pass 3 removes the rectangles that close there.  (Connector end point nodes are inserted
+and removed inside their own pass-2 step.)  `sweepLines` is that loop on the indices of the rectangles;
+`Props.C05OrthVis.sweep_scanline_is_activeAt` proves that what pass 2 sees is `activeAt`. -/
+
+def opensAt (rects : List Rect) (p : Rat) : List Nat :=
+  (rects.zipIdx.filter fun q => q.1.y0 == p).map (·.2)
+
+def closesAt (rects : List Rect) (p : Rat) : List Nat :=
+  (rects.zipIdx.filter fun q => q.1.y1 == p).map (·.2)
+
+/-- `(position, scan line in pass 2)` for the sweep positions `ps` (in the order given), starting from the
+    scan line `line` -/
+def sweepLines (rects : List Rect) : List Rat → List Nat → List (Rat × List Nat)
+  | [], _ => []
+  | p :: ps, line =>
+    let seen := line ++ opensAt rects p
+    (p, seen) :: sweepLines rects ps (seen.filter fun i => !(closesAt rects p).contains i)
+
 end AdaptaVerif.Model.OrthVis
